@@ -3,11 +3,13 @@ package c02
 import (
 	"fmt"
 	"strings"
+	"sync"
 	"testing"
 
 	"pgregory.net/rapid"
 
 	"verif/gen"
+	"verif/pairs"
 	"verif/pk"
 	"verif/px"
 	"verif/sb"
@@ -136,4 +138,49 @@ func TestRobust(t *testing.T) {
 		}
 		pk.Judge(rt, c, checkRobust(c))
 	})
+}
+
+// The cross-product programs of verif/pairs (every pool expression under every operator, assignment operator,
+// index, call, member, declared type ...): most are rejected; each one the analyzer ACCEPTS must run to a
+// well-formed outcome on both backends. Random generation only builds operator/operand combinations its own
+// type rules allow, so a combination that only the analyzer wrongly allows is reached here, not there.
+func TestTablePairsRun(t *testing.T) {
+	pk.SkipIfReplay(t)
+	col := pk.NewCollector()
+	progs := pairs.Programs()
+	var wg sync.WaitGroup
+	sem := make(chan struct{}, 16)
+	for i := range progs {
+		if !pk.Mine(i) {
+			continue
+		}
+		wg.Add(1)
+		sem <- struct{}{}
+		go func(i int) {
+			defer wg.Done()
+			defer func() { <-sem }()
+			c := Case{ProgCase: px.ProgCase{Modules: map[string]string{"main": progs[i].Text}, Entry: "main", Limits: sb.DefaultLimits(), Note: progs[i].Kind}}
+			pk.Eval()
+			pk.Class(progs[i].Kind)
+			// analysis once; only accepted programs are run
+			resp := px.Pool().Exec(&sb.Request{Op: "analyze", Modules: c.Modules, Entry: "main"})
+			if resp == nil || resp.Crash != "" || resp.Hang || !resp.Accepted {
+				return // analysis failures are C05's subject
+			}
+			pk.Class("pairs-accepted")
+			pk.NonTrivial(progs[i].Text, map[string]any{"program": progs[i].Text})
+			for _, b := range []string{"vm", "tree"} {
+				cb := c
+				cb.Backends = []string{b}
+				f := checkRobust(cb)
+				if f != nil {
+					f.Sig = f.Sig + " [" + progs[i].Kind + "]"
+				}
+				col.Report(cb, f)
+			}
+		}(i)
+	}
+	wg.Wait()
+	pk.Exhaustive("pairs-accepted-run")
+	col.Done(t)
 }
